@@ -366,11 +366,21 @@ func (c *ctx) strLit(s string) *T {
 }
 
 // strLitAxioms: literals are pairwise distinct, with known length and bytes
-func (c *ctx) strLitAxioms() []*T {
+func (c *ctx) strLitAxioms(mentioned map[string]bool) []*T {
 	var out []*T
-	n := len(c.strLitOrder)
+	order := c.strLitOrder
+	if mentioned != nil {
+		// only the literals the query mentions (a function's log messages alone can be hundreds of byte facts)
+		order = nil
+		for _, s := range c.strLitOrder {
+			if mentioned[c.strLits[s].op] {
+				order = append(order, s)
+			}
+		}
+	}
+	n := len(order)
 	for i := 0; i < n; i++ {
-		si := c.strLitOrder[i]
+		si := order[i]
 		ti := c.strLits[si]
 		out = append(out, mkEq(app("slen", c.intSort(), ti), c.I(int64(len(si)))))
 		if len(si) <= 40 {
@@ -381,7 +391,7 @@ func (c *ctx) strLitAxioms() []*T {
 	}
 	if n > 1 {
 		args := make([]*T, n)
-		for i, s := range c.strLitOrder {
+		for i, s := range order {
 			args[i] = c.strLits[s]
 		}
 		out = append(out, app("distinct", "Bool", args...))
